@@ -584,6 +584,8 @@ def oracle(seed, tier):
         sc = gen_scenario(rng, tier)
         out = run_scenario(sc)
         res.evaluations += 1
+        if res.enough():
+            break
         rig = out['rig']
         res.hit('user:' + sc['user'])
         res.hit('workers:%d' % sc['cfg']['max_request_processes'])
